@@ -240,7 +240,7 @@ harness!(avx2vec, 34, c02_m0_r0_l0_b256_generic, collect_body::<0, 0, 0, 256, 2>
 harness!(avx2vec, 34, c02_m0_r1_l20_b256_generic, collect_body::<0, 1, 20, 256, 2>(Dispatch::Generic));
 //@ C02 thorough 10800 scanner to exhaustion: matrix 1 (M=1), R=2, L=40, block 1, AVX2 arm | mem=22 | unwindset=scan::Scanner<.*Iterator>::next#0:6
 harness!(avx2vec, 34, c02_m1_r2_l40_b1_avx2, collect_body::<1, 2, 40, 1, 2>(Dispatch::Avx2));
-//@ C02 quick 3600 scanner to exhaustion: matrix 0 (M=2), R=2, L=63, block 2 (= R: the next block would start on the look-ahead row; the cell past the last position sits in row 0), AVX2 arm | mem=22 | unwindset=scan::Scanner<.*Iterator>::next#0:6
+//@ C02 thorough 14400 scanner to exhaustion: matrix 0 (M=2), R=2, L=63, block 2 (= R: the next block would start on the look-ahead row; the cell past the last position sits in row 0), AVX2 arm | mem=22 | unwindset=scan::Scanner<.*Iterator>::next#0:6
 harness!(avx2vec, 66, c02_m0_r2_l63_b2_avx2, collect_body::<0, 2, 63, 2, 2>(Dispatch::Avx2));
 //@ C02 thorough 10800 scanner to exhaustion: matrix 0 (M=2), R=2, L=64, block 2, AVX2 arm | mem=22 | unwindset=scan::Scanner<.*Iterator>::next#0:6
 harness!(avx2vec, 66, c02_m0_r2_l64_b2_avx2, collect_body::<0, 2, 64, 2, 2>(Dispatch::Avx2));
